@@ -180,59 +180,67 @@ Definition refl_newfield (D : rdefs) (tid : nat) (fd : fdesc) : rout :=
        | _ => OVal true [msg_empty]
        end.
 
-(* ---------- list operations on field fd of a message with fields fs ----------
-   lro: the list itself is the read-only empty list *)
-Definition refl_list_op (D : rdefs) (tid : nat) (md : mdesc) (fd : fdesc) (lro : bool) (o : lop)
-    (fs : fields) : fields * rout :=
-  let vs := msg_fget fs (f_num fd) in
+(* ---------- list operations ----------
+   [refl_list_edit]: the operation on the element list alone; the first component is the new
+   element list (None: unchanged).  lro: the list is the read-only empty list *)
+Definition refl_list_edit (D : rdefs) (tid : nat) (fd : fdesc) (lro : bool) (o : lop) (vs : list value)
+    : option (list value) * rout :=
   let len := N.of_nat (length vs) in
   match o with
-  | LLen => (fs, ONum len)
-  | LGet i => match nth_error vs (N.to_nat i) with Some v => (fs, OVal true [v]) | None => (fs, OPanic) end
-  | LSet i v =>
-    if i <? len then (refl_store md fd fs (refl_replace_nth vs (N.to_nat i) v), ONone) else (fs, OPanic)
-  | LAppend v => if lro then (fs, OPanic) else (refl_store md fd fs (vs ++ [v]), ONone)
+  | LLen => (None, ONum len)
+  | LGet i => match nth_error vs (N.to_nat i) with Some v => (None, OVal true [v]) | None => (None, OPanic) end
+  | LSet i v => if i <? len then (Some (refl_replace_nth vs (N.to_nat i) v), ONone) else (None, OPanic)
+  | LAppend v => if lro then (None, OPanic) else (Some (vs ++ [v]), ONone)
   | LTruncate n =>
-    if lro then (fs, OPanic)
-    else if n <=? len then (refl_store md fd fs (firstn (N.to_nat n) vs), ONone) else (fs, OPanic)
+    if lro then (None, OPanic)
+    else if n <=? len then (Some (firstn (N.to_nat n) vs), ONone) else (None, OPanic)
   | LAppendMutable =>
-    if lro then (fs, OPanic)
-    else if refl_kind_is_msg (f_kind fd) then (refl_store md fd fs (vs ++ [msg_empty]), ONone)
-    else (fs, OPanic)
+    if lro then (None, OPanic)
+    else if refl_kind_is_msg (f_kind fd) then (Some (vs ++ [msg_empty]), ONone)
+    else (None, OPanic)
   | LNewElement =>
     match f_kind fd with
-    | KS sk => (fs, OVal true [VS (refl_elem_zero D tid (f_num fd) sk)])
-    | _ => (fs, OVal true [msg_empty])
+    | KS sk => (None, OVal true [VS (refl_elem_zero D tid (f_num fd) sk)])
+    | _ => (None, OVal true [msg_empty])
     end
   end.
+
+Definition refl_list_op (D : rdefs) (tid : nat) (md : mdesc) (fd : fdesc) (lro : bool) (o : lop)
+    (fs : fields) : fields * rout :=
+  let '(r, out) := refl_list_edit D tid fd lro o (msg_fget fs (f_num fd)) in
+  (match r with Some vs' => refl_store md fd fs vs' | None => fs end, out).
 
 Definition refl_map_vdef (fd : fdesc) : Z :=
   match f_card fd with CMap _ _ vdef => vdef | _ => 0%Z end.
 
-Definition refl_map_op (md : mdesc) (fd : fdesc) (mro : bool) (o : mop) (fs : fields) : fields * rout :=
-  let es := msg_fget fs (f_num fd) in
+Definition refl_map_edit (fd : fdesc) (mro : bool) (o : mop) (es : list value)
+    : option (list value) * rout :=
   match o with
-  | MLen => (fs, ONum (N.of_nat (length es)))
-  | MGet k => (fs, OOpt (refl_map_get es k))
-  | MHas k => (fs, OBool (match refl_map_get es k with Some _ => true | None => false end))
-  | MRange => (fs, OVal true es)
-  | MSet k v => if mro then (fs, OPanic) else (refl_store md fd fs (msg_map_put es k v), ONone)
-  | MClear k => if mro then (fs, ONone) else (refl_store md fd fs (refl_map_del es k), ONone)
+  | MLen => (None, ONum (N.of_nat (length es)))
+  | MGet k => (None, OOpt (refl_map_get es k))
+  | MHas k => (None, OBool (match refl_map_get es k with Some _ => true | None => false end))
+  | MRange => (None, OVal true es)
+  | MSet k v => if mro then (None, OPanic) else (Some (msg_map_put es k v), ONone)
+  | MClear k => if mro then (None, ONone) else (Some (refl_map_del es k), ONone)
   | MMutable k =>
-    if mro then (fs, OPanic)
+    if mro then (None, OPanic)
     else if refl_kind_is_msg (f_kind fd) then
       match refl_map_get es k with
-      | Some v => (fs, OVal true [v])
-      | None => (refl_store md fd fs (msg_map_put es k msg_empty), OVal true [msg_empty])
+      | Some v => (None, OVal true [v])
+      | None => (Some (msg_map_put es k msg_empty), OVal true [msg_empty])
       end
-    else (fs, OPanic)
+    else (None, OPanic)
   | MNewValue =>
     match f_kind fd with
-    | KS SkEnum => (fs, OVal true [VS (SZ (refl_map_vdef fd))])
-    | KS sk => (fs, OVal true [VS (sk_zero sk)])
-    | _ => (fs, OVal true [msg_empty])
+    | KS SkEnum => (None, OVal true [VS (SZ (refl_map_vdef fd))])
+    | KS sk => (None, OVal true [VS (sk_zero sk)])
+    | _ => (None, OVal true [msg_empty])
     end
   end.
+
+Definition refl_map_op (md : mdesc) (fd : fdesc) (mro : bool) (o : mop) (fs : fields) : fields * rout :=
+  let '(r, out) := refl_map_edit fd mro o (msg_fget fs (f_num fd)) in
+  (match r with Some es' => refl_store md fd fs es' | None => fs end, out).
 
 (* ---------- the invariant of abstract states ---------- *)
 Definition refl_oneofs_ok (md : mdesc) (fs : fields) : bool :=
@@ -282,6 +290,29 @@ Fixpoint refl_wf (S : schema) (tid : nat) (v : value) {struct v} : bool :=
   | _ => false
   end.
 
+(* the value list given to Set: one value for a singular field, a scalar for a scalar kind *)
+Definition refl_set_shape (fd : fdesc) (vs : list value) : bool :=
+  refl_is_map fd || refl_is_list fd ||
+  match vs with
+  | [v] => match f_kind fd, v with
+           | KS _, VS _ => true
+           | KS _, _ => false
+           | _, VS _ => false
+           | _, _ => true
+           end
+  | _ => false
+  end.
+
+(* descriptors the Go descriptor layer can produce: members of a oneof and extensions are
+   singular with explicit presence *)
+Definition refl_fd_ok (fd : fdesc) : bool :=
+  match f_oneof fd with
+  | Some _ => negb (refl_is_map fd || refl_is_list fd) && negb (f_ext fd) &&
+              match f_card fd with CImp => false | _ => true end
+  | None => true
+  end &&
+  (negb (f_ext fd) || match f_card fd with CImp => false | CMap _ _ _ => false | _ => true end).
+
 (* argument values of an operation are dumps of protoreflect values: well formed *)
 Definition refl_op_wf (S : schema) (md : mdesc) (op : rop) : bool :=
   let vals (f : N) (vs : list value) : bool :=
@@ -294,8 +325,13 @@ Definition refl_op_wf (S : schema) (md : mdesc) (op : rop) : bool :=
     | Some fd => match f_kind fd with KS _ => true | KMsg t | KGrp t => refl_wf S t v end
     | None => true
     end in
+  let shape (f : N) (vs : list value) : bool :=
+    match msg_find_field md f with
+    | Some fd => refl_set_shape fd vs
+    | None => true
+    end in
   match op with
-  | RSet f vs => vals f vs
+  | RSet f vs => vals f vs && shape f vs
   | RList f _ (LSet _ v) => arg f v
   | RList f _ (LAppend v) => arg f v
   | RMap f _ (MSet _ v) => arg f v
@@ -389,6 +425,7 @@ Fixpoint refl_focus (S : schema) (D : rdefs) (w : bool) (path : list pstep) (tid
              end
       | PL f i =>
         if ro && w then (m, OPanic) else
+        if negb (refl_is_list fd) then (m, OPanic) else                (* Value.List() of a non-list *)
         if negb (refl_kind_is_msg (f_kind fd)) then (m, OPanic) else   (* Value.Message() of a scalar *)
         let vs := msg_fget fs f in
         match nth_error vs (N.to_nat i) with
@@ -399,6 +436,7 @@ Fixpoint refl_focus (S : schema) (D : rdefs) (w : bool) (path : list pstep) (tid
         end
       | PM f k =>
         if ro && w then (m, OPanic) else
+        if negb (refl_is_map fd) then (m, OPanic) else
         if negb (refl_kind_is_msg (f_kind fd)) then (m, OPanic) else
         let es := msg_fget fs f in
         match refl_map_get es k with
